@@ -2,8 +2,8 @@
 import difflib, sys, ast
 out, path = sys.argv[1], sys.argv[2]
 old, new = ast.literal_eval(sys.stdin.read())
-s = open('/repo/' + path).read()
+s = open('/repo/' + path, newline='').read()
 assert s.count(old) >= 1, "old text not found"
 t = s.replace(old, new, 1)
-open(out, 'w').write(''.join(difflib.unified_diff(s.splitlines(1), t.splitlines(1), 'a/' + path, 'b/' + path)))
+open(out, 'w', newline='').write(''.join(difflib.unified_diff(s.splitlines(1), t.splitlines(1), 'a/' + path, 'b/' + path)))
 print("wrote", out)
